@@ -18,7 +18,7 @@ UnknownTypes == {"fooBar", "fpc", "reobj", "FPC", "fpC ", "", "psfield", "reObjF
 AllTypes == DOMAIN TypeTable \cup {"reObj"} \cup UnknownTypes
 RunsQ == IF Big THEN {0, 1, 9, 10, 94, 137, 999, 1000, 9999, 10000, 65535} ELSE {0, 7, 137, 1000, 65535}
 FieldsQ == IF Big THEN {0, 1, 9, 10, 42, 99, 100, 999, 1000, 4095} ELSE {0, 42, 4095}
-CamcolsQ == IF Big THEN 1 .. 6 ELSE {1, 6}
+CamcolsQ == IF Big THEN {1, 4, 6} ELSE {1, 6}
 Reruns == IF Big THEN {"301", "137", "40", "1"} ELSE {"301", "40"}
 HasFilter(ft) == LET r == Resolved(ft, TRUE) IN Known(r) /\ TypeTable[r].filt
 FiltersFor(ft) == IF HasFilter(ft) THEN {NumF(0), NumF(2), NumF(4), StrF("r"), StrF("g"), StrF("z")}
@@ -113,10 +113,11 @@ InitSpecPath ==
                           env_run2d |-> er, env_boss |-> eb])
 
 (* ---------------- latest_mjd ---------------- *)
-FilePool == {<<123, 51000>>, <<123, 55000>>, <<123, 55001>>, <<1234, 55000>>, <<1234, 99999>>, <<7, 10000>>}
+FilePool == {<<123, 51000>>, <<123, 55000>>, <<123, 55001>>, <<1234, 55000>>, <<1234, 99999>>, <<7, 10000>>,
+             <<10000, 57346>>, <<10000, 58000>>}
 InitLatest ==
-  \E F \in SUBSET FilePool : \E pa \in ({<<<<p>>, "scalar">> : p \in {123, 1234, 7, 99}}
-                                         \cup {<<v, "array">> : v \in {<<123, 1234, 123>>, <<7, 99, 123>>, <<1234>>}}) :
+  \E F \in SUBSET FilePool : \E pa \in ({<<<<p>>, "scalar">> : p \in {123, 1234, 7, 99, 10000}}
+                                         \cup {<<v, "array">> : v \in {<<123, 1234, 123>>, <<7, 99, 123>>, <<1234>>, <<10000, 123>>}}) :
   \E layout \in {"tree", "flat"} :
      (IF Big THEN TRUE ELSE Cardinality(F) <= 3) /\
      c = Mk("latest_mjd", [files |-> SetToSortSeq(F, LAMBDA x, y : x[1] < y[1] \/ (x[1] = y[1] /\ x[2] < y[2])),
